@@ -360,6 +360,7 @@ void DOMElementImpl::removeAttributeNS(const XMLCh *fNamespaceURI,
     if (i >= 0)
     {
         DOMNode *att = fAttributes->removeNamedItemAt(i);
+        ((DOMAttrImpl *)att)->removeAttrFromIDNodeMap();
         att->release();
     }
 }
